@@ -73,7 +73,7 @@ PROPS = {
                       "prepared fresh environment (refinement), probes check that no local name is visible at top level, readers check all-or-nothing monotone visibility "
                       "of a redefined global, and the Go race detector runs on the same tapes for the no-data-race clause.",
         "level_note": "Trusts the simulator and ThreadSanitizer; the solo run is the reference (it is the same interpreter); env critical sections are atomic in the simulation, their absence is a matter for the race oracle.",
-        "rule": "one run = one seeded tape: 2-5 programs of 2-5 fragments drawn from 73 templates (let, shadowing, tail/non-tail recursion under thread-specific global names, "
+        "rule": "one run = one seeded tape: 2-5 programs of 2-5 fragments drawn from 71 templates (let, shadowing, tail/non-tail recursion under thread-specific global names, "
                 "closures over local atoms, own and library macros, memoize, try/catch, defs, def inside thunks and future bodies, derivation from shared vector/map/list/closure/macro, "
                 "map/apply/reduce/update-in, futures incl. ones started in a non-final let binding, gensym names used as private globals, a local helper defined after a future was started, rest lists of variadic callbacks that outlive map, memoized closures with the "
                 "same text and different captured values in every thread, a global redefined from its own value, shared atoms printed with str/pr-str, an atom of the program's own printed while a future of the program updates it, futures cancelled in the middle of a computation, tail loops whose turns start futures or make closures, first calls of shared functions whose bodies contain macro calls, keywords made at run time, a macro whose expansion closes over its parameter, the shared macro used while another thread defines it again), "
